@@ -398,6 +398,9 @@ def _float_plumbing(cfg, rng, env=None, family="generic"):
         cds = rng.uniform(-0.05, 0.05, cfg["cd"])
         wds = rng.uniform(0.0, 0.02, cfg["wd"])
         lc = 550.0
+    if family == "integer-axis":
+        # "arbitrary global axes": an integer-typed axis (pixel numbers, rounded wavelengths) with non-multiples of 100 around lc
+        lam = np.sort(rng.choice(np.arange(401, 700), size=ng, replace=False)).astype(int)
     if env:
         # the solver's counterexample point itself (branch region of the path that failed)
         def g(nm, dflt):
@@ -450,7 +453,7 @@ def replay(data):
                 elif env and trial == 0:
                     v, d = _float_plumbing(cfg, rng, env=env)
                 else:
-                    v, d = _float_plumbing(cfg, rng, family="narrow-far" if trial % 2 else "generic")
+                    v, d = _float_plumbing(cfg, rng, family=("narrow-far", "generic", "integer-axis")[trial % 3])
         except Exception as ex:  # noqa: BLE001
             return True, f"{cfg['name']}: {type(ex).__name__}: {ex}"
         if v:
